@@ -319,6 +319,9 @@ Definition rstep (fuel : nat) (a : action) (st : rstate) : option (robs * rstate
         end
       end
   | AAbort _ | AEvent _ _ => Some (RONone, st)
+  | ASpawn t =>
+      (* one more strand of the outermost command: it runs beside whatever is there *)
+      Some (RONone, mkRSt (RPar [r_c st; RBag (start_bag [] t [])]) (r_n st) (r_effs st) (r_evs st) (r_reqs st))
   end.
 
 Fixpoint rrun (fuel : nat) (acts : list action) (st : rstate) : option (list robs) :=
@@ -353,4 +356,4 @@ Fixpoint cmd_abort_free (c : cmd) : bool :=
   | CSendR _ _ | CSendS _ _ => true
   end.
 Definition sched_abort_free (acts : list action) : bool :=
-  forallb (fun a => match a with AAbort _ => false | _ => true end) acts.
+  forallb (fun a => match a with AAbort _ => false | ASpawn t => task_abort_free t | _ => true end) acts.
